@@ -968,10 +968,12 @@ func (idx *Index) saveBucketState() error {
 
 		_, err = writer.Write(buf)
 		if err != nil {
+			file.Close()
 			return err
 		}
 	}
 	if err = writer.Flush(); err != nil {
+		file.Close()
 		return err
 	}
 	if err = file.Close(); err != nil {
